@@ -133,15 +133,15 @@ fn sampled(t: &mut Tape, ctx: &mut Ctx) -> R {
 pub fn property() -> Property {
     Property {
         id: "C18",
-        rule: "all-counts: every leaf count 0..=300 (quick) / 0..=4200 (thorough) enumerated completely with seeded \
+        rule: "all-counts: every leaf count 0..=1200 (quick) / 0..=6000 (thorough) enumerated completely with seeded \
                leaf contents, each with 6 single-bit leaf flips and up to 6 swaps of two distinct leaves; sampled: \
                tape-chosen counts up to 70000 biased to 2^k-2..2^k+2 and to counts with many set bits. Oracle: \
                naive level-by-level tree over the harness's own SHA-256 compression function. Non-trivial = leaf \
                count not of the form 2^k or 2^k+1 (and >= 3), distinct by (count, perturbation, positions).",
         assumptions: &["the harness SHA-256 is checked against FIPS 180-4 vectors at start-up"],
         subs: vec![
-            Sub { name: "all_counts", kind: Kind::Index { count: |t| t.pick(301, 4201), exhaustive: true, f: all_counts } },
-            Sub { name: "sampled", kind: Kind::Tape { max_len: 256, quick: 400, thorough: 6000, f: sampled } },
+            Sub { name: "all_counts", kind: Kind::Index { count: |t| t.pick(1201, 6001), exhaustive: true, f: all_counts } },
+            Sub { name: "sampled", kind: Kind::Tape { max_len: 256, quick: 1_500, thorough: 20_000, f: sampled } },
         ],
         known: vec![],
     }
